@@ -37,6 +37,7 @@ theorem packMapLoop_inv : ∀ (ds : List Int) (ents : List Item) (w : W) (ents' 
       | cons val r =>
         simp only [hst] at h
         have hkey : key.cid = none := hk key (by simp [pairKeys, hst])
+        rw [if_neg (by simp [hkey])] at h
         have hk' : ∀ x ∈ pairKeys ds.length r, x.cid = none := by
           intro x hx; apply hk x; simp [pairKeys, hst, hx]
         by_cases hd : d < 0
